@@ -69,6 +69,7 @@ var pipeHosts = map[string]string{
 	"origin": "origin.test", "denied": "denied.test", "deniedUpper": "WWW.DENIED.TEST", "deniedWide": "\uff44\uff45\uff4e\uff49\uff45\uff44.test", "deniedDot": "denied.test.", "deniedUpperRule": "Shouty.Test", "denyExcl": "excl.denied.test",
 	"direct": "direct.test", "directUpper": "WWW.DIRECT.TEST", "directExcl": "excl.direct.test",
 	"denyExclCaps": "SAFE.shield.test", "deniedCaps": "Other.SHIELD.test", "directExclCaps": "Secure.corp.test", "directCaps": "Wiki.CORP.test",
+	"lo4PlusPort": "127.0.0.1:+80", "lhServicePort": "localhost:http",
 	"lhAliasEarly": "buildhost", "lhAliasFqdn": "buildhost.example.net", "lhAlias6": "ip6-alias.test",
 	"other":  "other.test",
 	"lhName": "localhost", "lhUpper": "LOCALHOST", "lo4": "127.0.0.1", "lo4b": "127.9.9.9", "lo6": "[::1]",
